@@ -7,7 +7,8 @@ import json, os, re, subprocess, sys, time
 
 VERIF = os.path.dirname(os.path.dirname(os.path.abspath(__file__)))
 AREAS = {"N1": ["C01", "C02", "C03", "C04", "C05", "C08"], "N2": ["C05", "C06", "C07", "C08", "C09", "C18"], "N3": ["C10", "C11", "C12", "C13", "C01"],
-         "N4": ["C14", "C15", "C16", "C17", "C19", "C20"]}
+         "N4": ["C14", "C15", "C16", "C17", "C19", "C20"],
+         "M1": ["C01", "C02", "C03", "C04", "C05", "C08"], "M2": ["C11", "C12", "C13"], "M3": ["C06", "C07", "C09", "C14", "C16", "C18"]}
 areas = sys.argv[1:] or sorted(AREAS)
 st = subprocess.run("git -C /repo status --porcelain --untracked-files=no", shell=True, stdout=subprocess.PIPE).stdout.decode().strip()
 if st:
